@@ -108,24 +108,28 @@ def parse_num(tok):
 
 
 REL_TOL = Fraction(1, 10**9)
-ABS_TOL = Fraction(1, 10**12)
+# absolute tolerance: 0 for the array streams (inputs are dyadic rationals, results are compared
+# relatively, exact zeros compare equal); streams with longer float computations pass their own
+ABS_TOL = Fraction(0)
 
 
-def tokens_equal(a, b):
+def tokens_equal(a, b, abs_tol=None):
     if a == b:
         return True
     na, nb = parse_num(a), parse_num(b)
     if na is None or nb is None or isinstance(na, str) or isinstance(nb, str):
         return False
     d = abs(na - nb)
-    return d <= ABS_TOL or d <= REL_TOL * max(abs(na), abs(nb))
+    return d <= (ABS_TOL if abs_tol is None else abs_tol) or d <= REL_TOL * max(abs(na), abs(nb))
 
 
-def lines_equal(a, b):
+def lines_equal(a, b, abs_tol=None):
+    if a == b:
+        return True
     ta, tb = a.split(" "), b.split(" ")
     if len(ta) != len(tb):
         return False
-    return all(tokens_equal(x, y) for x, y in zip(ta, tb))
+    return all(tokens_equal(x, y, abs_tol) for x, y in zip(ta, tb))
 
 
 def split_cases(lines):
@@ -145,7 +149,7 @@ def split_cases(lines):
     return cases
 
 
-def diff_streams(lines, impl_out, model_out):
+def diff_streams(lines, impl_out, model_out, abs_tol=None):
     """returns list of (case_index, line_index_in_case, line, impl, model) for the first
     disagreement of every disagreeing case"""
     assert len(lines) == len(impl_out), (len(lines), len(impl_out))
@@ -160,7 +164,7 @@ def diff_streams(lines, impl_out, model_out):
             start = i
         if ci in seen_bad_case:
             continue
-        if not lines_equal(impl_out[i], model_out[i]):
+        if not lines_equal(impl_out[i], model_out[i], abs_tol):
             seen_bad_case.add(ci)
             bad.append({"case": ci, "offset": i - start, "line": ln, "impl": impl_out[i],
                         "model": model_out[i], "start": start})
